@@ -230,6 +230,7 @@ def probeSigchldNext : List Op :=
 /-- `on_sigchld` keeps `next` across a callback that cancels it. -/
 theorem sigchld_next_cancelled_counterexample : (runOps .shipped probeSigchldNext).status = .ub .procLoopThis := by
   decide +kernel
+theorem sigchld_next_cancelled_repaired : (runOps .repaired probeSigchldNext).status = .ok := by decide +kernel
 
 /-! ### statements of the property that are not proved (engines.d/C17.json: open_statements) -/
 
